@@ -276,13 +276,13 @@ PARTS = {
         mc={"quick": ["MC_Handler_init.cfg"], "thorough": ["MC_Handler_init.cfg", "MC_Handler_tiny.cfg", "MC_Handler_atkq.cfg"]},
         goals_cfg="MC_Handler_goal.cfg",
         goals=["GoalSecondWay", "GoalNoRecordHs", "GoalRekeyPending", ("GoalRekeyReleasesPending", "MC_Handler_goalenr.cfg"), "GoalEnrlessDone", "GoalTimeoutAll", "GoalPendingAfterExpiredChallenge", "GoalBadSigKeepsChallenge", "GoalBadThenGoodHs", "GoalWayAfterReplay", ("GoalSendAfterRotateBack", "MC_Handler_goalrot.cfg"),
-               ("GoalForgedHs", "MC_Handler_goalatk.cfg"), ("GoalReplayedHs", "MC_Handler_goalatk.cfg"), ("GoalJunkSigHs", "MC_Handler_goalatk.cfg"), ("GoalForgedHs", "MC_Handler_goaled.cfg"), ("GoalJunkSigHs", "MC_Handler_goaled.cfg"), ("GoalReplayUnverifiableHs", "MC_Handler_goalsib.cfg"), ("GoalZeroKeyAfterRekey", "MC_Handler_goalzero.cfg"), ("GoalForeignEnrAnswer", "MC_Handler_goalnoenr.cfg"), ("GoalLateEnrAnswer", "MC_Handler_goalnoenr.cfg")],
+               ("GoalForgedHs", "MC_Handler_goalatk.cfg"), ("GoalReplayedHs", "MC_Handler_goalatk.cfg"), ("GoalJunkSigHs", "MC_Handler_goalatk.cfg"), ("GoalForgedHs", "MC_Handler_goaled.cfg"), ("GoalJunkSigHs", "MC_Handler_goaled.cfg"), ("GoalReplayUnverifiableHs", "MC_Handler_goalsib.cfg"), ("GoalForeignWayOnHs", "MC_Handler_goalsib.cfg"), ("GoalZeroKeyAfterRekey", "MC_Handler_goalzero.cfg"), ("GoalForeignEnrAnswer", "MC_Handler_goalnoenr.cfg"), ("GoalLateEnrAnswer", "MC_Handler_goalnoenr.cfg")],
         sim={"quick": [dict(cfg="MC_Handler_sim.cfg", num=160, depth=40)], "thorough": [dict(cfg="MC_Handler_sim.cfg", num=1000, depth=60)]},
         append_ops=[{"k": "Quiesce"}],
         drive={"quick": 0, "thorough": 0},
         trace="Trace_Handler.tla", mon_cfg="Trace_Handler_mon.cfg", strict_cfg="Trace_Handler_strict.cfg",
         formulas={"C01.Attribution": "C01", "C01.KeyDisclosed": "C01", "C02.Delivered": "C02", "C02.MutantAccepted": "C02",
-                  "C03.ReplayAccepted": "C03", "C03.NoChallenge": "C03", "C03.WrongSource": "C03", "C03.TwoHandshakes": "C03",
+                  "C03.ReplayAccepted": "C03", "C03.NoChallenge": "C03", "C03.WrongSource": "C03", "C03.TwoHandshakes": "C03", "C03.ActedOnForeign": "C03",
                   "C04.TwoOutcomes": "C04", "C04.EventAfterOutcome": "C04", "C04.NoOutcome": "C04", "C04.TimeoutUnjustified": "C04", "C04.WireBound": "C04",
                   "C13.Count": "C13", "C13.LeftOver": "C13", "C13.ReleasedEarly": "C13", "C12.SingleStack": "C12", "C15.Capacity": "C15", "C15.StaleSessionUsed": "C15",
                   "C19.NonceReuse": "C19", "C19.IdNonceReuse": "C19"},
